@@ -38,7 +38,8 @@ func (b Bundle) Fragment(mtu int) (bs []Bundle, err error) {
 		return
 	}
 
-	for i := 0; i < payloadBlockLen; {
+	// The loop body runs at least once: a Bundle with an empty payload is checked against the MTU and returned, too.
+	for i := 0; i == 0 || i < payloadBlockLen; {
 		var (
 			fragPrimaryBlock PrimaryBlock
 			primaryOverhead  int
